@@ -111,11 +111,17 @@ Print Assumptions C15_extract_tail_edge.
 (* patterns: "left*right" and "left[class]right" (brackets, asterisks and backslashes of the boundaries
    escaped) compile to exactly these boundaries, and the class table holds exactly the listed bytes
    and ranges ('-' first or last is itself; a leading '^' complements) *)
-Theorem C15_pattern_star : forall head l r maxr,
+Theorem C15_pattern_star : forall (head : bool) (l r : bytes) maxr, (if head then r else l) <> [] ->
   new_string_extractor_simple head (pat_escape l ++ 42 :: pat_escape r) maxr =
   Ok {| ex_head := head; ex_left := l; ex_right := r; ex_max := maxr; ex_table := None |}.
 Proof. exact new_extractor_star. Qed.
 Print Assumptions C15_pattern_star.
+
+(* a bare "*" needs the boundary on its far side (right for extractHead, left for extractTail) *)
+Theorem C15_pattern_star_rejected : forall (head : bool) (l r : bytes) maxr, (if head then r else l) = [] ->
+  new_string_extractor_simple head (pat_escape l ++ 42 :: pat_escape r) maxr = Err e_star_boundary.
+Proof. exact new_extractor_star_rejected. Qed.
+Print Assumptions C15_pattern_star_rejected.
 
 Theorem C15_pattern_class : forall head l r maxr (neg lead : bool) items (trail : bool),
   Forall item_ok_class items ->
@@ -386,3 +392,13 @@ Theorem C15_example :
   expand ex_fields [PLit [120;61]; PSlice 0 (-3) (-1); PVar 1] = Ok [120;61;55;56;33].
 Proof. exact (conj example_items_ok (conj (proj1 example_values) (proj1 (proj2 example_values)))). Qed.
 Print Assumptions C15_example.
+
+(* every configuration the loader accepts (unmarshal + VerifyTransformConfigs + NewTransformsFromConfig) builds
+   a well-formed program: no stream of records makes it panic.  The only assumption is the contract of Go's
+   regexp (one index pair per subexpression, negative or inside the value). *)
+Theorem C15_loaded_program_no_panic : forall O schema, oracle_sane O -> forall l ts cs rs,
+  load O schema l = LOk ts ->
+  Forall (fun x => x <> RPanic) (fst (run_records O ts cs rs)) /\
+  length (fst (run_records O ts cs rs)) = length rs.
+Proof. exact load_no_panic. Qed.
+Print Assumptions C15_loaded_program_no_panic.
